@@ -30,6 +30,7 @@ SHAPES = [
     ("chain", [[0, 0]], False, Q, dict(params=dict(second=[[0, 0]], cs=False))),
     ("chain", [[1, 0]], False, Q, dict(params=dict(second=[[0, 1]], cs=False), budget=600, shard=6)),
     ("single", [[1, 1], [0, 0]], False, Q, dict(params=dict(cs=True))),
+    ("single", [[0, 0], [0, 0]], False, Q, dict(params=dict(cs=False), budget=600, shard=5)),
     ("sub", [[1, 0], [0, 0]], False, Q, dict(params=dict(k=2), budget=600, shard=5)),
     ("chain", [[0, 0]], False, T, dict(params=dict(second=[[0, 0]], third=[[0, 0]], cs=True), budget=2400, shard=8)),
     ("chain", [[1, 0], [0, 0]], False, T, dict(params=dict(second=[[1, 0], [0, 0]], cs=True), budget=3000, shard=9)),
@@ -106,7 +107,7 @@ def build(job):
             ps = [(i, x) for i, r in enumerate(res.records) for x in [r.prefix, *r.prefix_synonyms]]
             eng.check_holds(And([eng.cf(x) != eng.cf(y) for i, x in ps for j, y in ps if i < j]),
                             "two records of a case-insensitive chain hold CURIE prefixes equal up to case")
-        if fn == "single":
+        if fn == "single" and cs:
             want = sorted_snapshot(convs[0])
             got = sorted_snapshot(res)
             eng.expect(len(want) == len(got) and all(
